@@ -256,6 +256,13 @@ class Run(object):
         self.refs = {}
         self.replica = None
 
+    def dig(self, y):
+        """Result bits for the event log -- not for FFTW-backed recipes:
+        with planning effort 'measure' FFTW picks its algorithm by timing,
+        and the last bits follow (1 of 1000 C03 runs diverged between two
+        executions of the determinism self-test)."""
+        return '' if getattr(self, 'nobit', False) else _dig(y)
+
     def viol(self, what, msg):
         raise Violation(self.prop, '{}/{}/{}'.format(self.prop, what,
                                                      self.site),
@@ -392,7 +399,7 @@ class Run(object):
             self.viol('garbage-dependence-oop',
                       'op(x) differs between allocator garbage {} and {} by '
                       '{:.3g}'.format(self.k1, self.k2, d))
-        self.ctx.event('oop', i, _dig(y))
+        self.ctx.event('oop', i, self.dig(y))
         self.note(i, 'oop', self.k1)
         return y
 
@@ -450,7 +457,7 @@ class Run(object):
                       'op(x, out=y) differs from op(x) by {:.3g} (y was '
                       'filled with {}, allocator garbage {})'.format(
                           d, o['fill'], self.k1))
-        self.ctx.event('ip', i, o['fill'], _dig(r))
+        self.ctx.event('ip', i, o['fill'], self.dig(r))
         self.note(i, 'ip', o['fill'])
 
     def do_alias(self, o):
@@ -487,7 +494,7 @@ class Run(object):
             if _bits(other) != _bits(x[1 - o.get('j', 0)]):
                 self.viol('alias-other-operand',
                           'LinComb(x, out=x[j]) modified the other component')
-        self.ctx.event('alias', i, _dig(out))
+        self.ctx.event('alias', i, self.dig(out))
         okx, dx = SP.close(yref, x, 0) if op.domain == op.range else (False, 1)
         if not okx:
             self.ctx.covered('alias', self.site, opt_sig(self.cfg), self.k1)
@@ -526,7 +533,7 @@ class Run(object):
             # seed t10).
             self.ctx.probe('alias-held-differs:' + type(op).__name__)
         self.ctx.fired('alias-held-element')
-        self.ctx.event('alias_held', _dig(e))
+        self.ctx.event('alias_held', self.dig(e))
 
     def do_raw(self, o):
         """A convertible non-element input (array of the right or another
@@ -602,7 +609,7 @@ class Run(object):
                       'op(<{}>) differs from op(element) by {:.3g}'.format(
                           kind, d))
         self.ctx.fired('raw-input-' + kind)
-        self.ctx.event('raw', i, kind, _dig(y) if kind != 'other_dtype'
+        self.ctx.event('raw', i, kind, self.dig(y) if kind != 'other_dtype'
                        else '')
 
     def do_reject_in(self, o):
